@@ -40,6 +40,26 @@ Script (JSON-able dict):
               "body": n, "close": bool} | {"s": "read"} | {"s": "close", "c": id} |
              {"s": "dt", "ms": n} | {"s": "tick", "to": ms} | {"s": "trigger"} |
              {"s": "go", "gate": name, "n": k}]}
+
+Trace events (dicts; times = virtual ms; every kind has a fixed field set):
+  w_open{worker,graceful,startup_to,shutdown_to,max_requests,jitter,ka,prelisten,startup,shutdown}
+  w_ctx{max_eff}                 effective max_requests (config value + jitter drawn), -1 = None
+  app_start{app,c,now,state_id}  app = x-rid of the request, or "life" (c = 0) for the lifespan scope
+  app_state{app,c,op,key,val}    op = set | get on scope["state"]
+  app_done{app,how,now,resp,bytes}   how = return|raise|cancelled|exc:<Class>; resp = complete|partial|none
+  life_recv{type,now} life_send{type,outcome,now} life_done{how,now}
+  listening{now}                 config.log.info("Running on ...")
+  c_connect{c,now,connected,accepted}  connected = TCP handshake completed; accepted = the server's
+                                 accept() call returned this connection while the step settled
+  c_accepted{c,now}              the server accepted a connection that had been queued earlier
+  c_send{c,n,rid,complete,now} c_recv{c,rid,status,complete,len,now}
+  c_closed_by_server{c,how,now} c_close{c,now} c_garbage{c,now}
+  trigger{source,now}            source = callable (script step / wind-down) | max_requests (context.terminate set)
+  serve_done{outcome,now}        outcome = return | exc:<Class>
+  tick{to} quiescent{now,open_conns} winddown{now} final{now} serve_cancelled_by_harness{} log{kind,text,now}
+Every execution ends with a wind-down: all gates opened, all clients closed, keep-alive timeout run out,
+shutdown triggered if the script did not, the clock run past every timeout, then `final`; when
+worker_serve has not ended by then it is cancelled (`serve_cancelled_by_harness` follows `final`).
 """
 from __future__ import annotations
 
